@@ -1,12 +1,14 @@
 #!/bin/bash
 # Applies a seeded change to /repo, runs the quick check(s), and undoes the change straight afterwards.
 # usage: tools/try_mutant.sh <patch.diff> <property-id> [more property ids...]
+# (with uncommitted work in /repo the change is undone with `git apply -R` instead of `git checkout`)
 patch=$1; shift
-if [ -n "$(git -C /repo status --porcelain --untracked-files=no)" ]; then echo "/repo has uncommitted changes"; exit 2; fi
+dirty=0
+if [ -n "$(git -C /repo status --porcelain --untracked-files=no)" ]; then dirty=1; fi
 git -C /repo apply "$patch" || { echo "patch does not apply"; exit 2; }
 for id in "$@"; do
   out=$(cd /verif && ./check $id ${TIER:-quick} 2>&1); rc=$?
-  echo "$out" | grep -E "VIOLATION|KNOWN-FINDING|rule |BUILD FAILED|SIMULATOR BUG" | head -6
+  echo "$out" | grep -E "VIOLATION|rule |BUILD FAILED|SIMULATOR BUG" | head -4 | cut -c1-300
   echo "== $id exit $rc  ($(echo "$out" | grep -E "runs, " | tr '\n' ' '))"
 done
-git -C /repo checkout -- .
+if [ $dirty = 1 ]; then git -C /repo apply -R "$patch"; else git -C /repo checkout -- .; fi
